@@ -84,9 +84,10 @@ Print Assumptions C09_comments_and_line_ends.
 (* ---------------------------------------------------------------- key_lookup *)
 
 (* key_lookup says "not found" exactly when no occurrence of the keyword (compared case-insensitively) at or after
-   save_pos is (a) preceded on its line by left delimiters only, (b) followed by a right delimiter -- with the two
-   end-of-string exceptions written out in right_clear -- and (c) followed by balanced braces; otherwise it works on
-   the FIRST such occurrence.  kw_occurrence is the declarative reading of the three tests. *)
+   save_pos is (a) preceded on its line by left delimiters only, (b) followed by a right delimiter or by the end of
+   the string and (c) followed by balanced braces; otherwise it works on the FIRST such occurrence.  kw_occurrence
+   is the declarative reading of the three tests.  (The pinned code did not test the last character of the string
+   and never matched a string equal to the keyword -- found while proving (b), repaired by a fix: commit.) *)
 Theorem C09_key_lookup_found_iff : forall conf key sp, good_key key ->
   (key_lookup (fuel_of conf) conf key sp = KL_notfound <-> forall j, (sp <= j)%nat -> ~ kw_occurrence conf key j) /\
   (forall pos d sp' r, key_lookup (fuel_of conf) conf key sp = KL_found pos d sp' r ->
@@ -109,16 +110,19 @@ Theorem C09_depth_zero : forall conf pos, balanced conf ->
 Proof. exact suffix_balanced_iff_prefix. Qed.
 Print Assumptions C09_depth_zero.
 
-(* the test on the right of the keyword is NOT "the next character, if any, is a delimiter":
-   "colvarx" matches the keyword colvar, and the string "colvar" does not (found through the proof of the theorem above) *)
-Theorem C09_right_isolation_refuted :
-  (exists conf key, kl_position (key_lookup (fuel_of conf) conf key O) = Some O /\
-                    ~ right_clear_expected conf O (length key)) /\
-  (exists conf key, key_lookup (fuel_of conf) conf key O = KL_notfound /\
-                    occurs (to_lower conf) (to_lower key) O /\ left_clear conf O /\
-                    right_clear_expected conf O (length key) /\ balanced conf).
-Proof. exact right_isolation_refuted. Qed.
-Print Assumptions C09_right_isolation_refuted.
+(* the right-hand test of the pinned code violated (b): in "colvarx" the keyword colvar was right-isolated, and in
+   the string "colvar" it was not *)
+Theorem C09_pinned_right_isolation_refuted :
+  (exists conf klen, isolated_right_pinned conf O klen = true /\ ~ right_clear conf O klen) /\
+  (exists conf klen, isolated_right_pinned conf O klen = false /\ right_clear conf O klen).
+Proof.
+  split.
+  - exists [99; 111; 108; 118; 97; 114; 120], 6%nat. split; [reflexivity|].
+    unfold right_clear. cbn. intros H. specialize (H ltac:(lia)). unfold LF, SP, TAB, LBRACE in H.
+    destruct H as [H|[H|[H|[H|[]]]]]; discriminate.
+  - exists [99; 111; 108; 118; 97; 114], 6%nat. split; [reflexivity|]. unfold right_clear. cbn. lia.
+Qed.
+Print Assumptions C09_pinned_right_isolation_refuted.
 
 (* letter case: two configurations that differ only in letter case, looked up with keywords that differ only in
    letter case, give the same keyword position, the same resume position and values equal up to letter case *)
